@@ -44,7 +44,7 @@ func init() {
 		Run:    c05Run,
 		Eval:   c05Eval,
 		Shrink: c05Shrink,
-		Rule: "TREE(L_full,2) printed minimally; TREE(L_full,1) ∪ TREE(L_small,2) also with one redundant pair of parentheses at each node in turn and fully parenthesised; " +
+		Rule: "TREE(L_full,2) printed minimally; TREE(L_full,1) ∪ TREE(L_small,2) also with one redundant pair of parentheses at each node in turn, fully parenthesised, and written compactly (no space next to a symbol token); " +
 			"CHAIN(k) over every leaf; SPINE(m) over 2 leaves; thorough adds TREE(L_3,3) and variants on TREE(L_2,3). " +
 			"non-trivial = Parse accepted the printed text; distinct = distinct accepted trees",
 		Assumptions: []string{
@@ -66,6 +66,19 @@ func init() {
 	})
 }
 
+// compactText joins tokens without any space wherever one of the neighbours is a symbol token
+// (which can never fuse with its neighbour), with a single space elsewhere: `+a:5^2`.
+func compactText(toks []string) string {
+	var sb strings.Builder
+	for i, t := range toks {
+		if i > 0 && !(isSym(toks[i-1]) || isSym(t)) {
+			sb.WriteByte(' ')
+		}
+		sb.WriteString(t)
+	}
+	return sb.String()
+}
+
 // treeUnitSets resolves the leaf set / sub-tree set named in a tree unit.
 func treeUnitSets(unit string) (leaves, sub []*qast.Node) {
 	p := strings.Split(unit, "|")
@@ -74,6 +87,8 @@ func treeUnitSets(unit string) (leaves, sub []*qast.Node) {
 		return treeSet("full0"), treeSet("full1")
 	case "full|1":
 		return treeSet("full0"), treeSet("full0")
+	case "c11x|1":
+		return treeSet("c11x0"), treeSet("c11x0")
 	case "small6|2":
 		return qast.LeavesSmall(6), treeSet("small1")
 	case "three|3":
@@ -99,6 +114,7 @@ func c05Run(w *core.Worker, tier, unit string) {
 			return
 		}
 		w.Do(core.Case{Kind: "full", In: core.BStr(qast.Text(t, &qast.PrintOpts{Full: true})), Tree: enc})
+		w.Do(core.Case{Kind: "compact", In: core.BStr(compactText(qast.Tokens(t, nil))), Tree: enc})
 		idx := 0
 		qast.Walk(t, func(n *qast.Node) {
 			w.Do(core.Case{Kind: "extra", In: core.BStr(qast.Text(t, &qast.PrintOpts{Extra: map[*qast.Node]bool{n: true}})),
@@ -165,6 +181,8 @@ func c05Shrink(c core.Case) []core.Case {
 		switch c.Kind {
 		case "full":
 			d.In = core.BStr(qast.Text(s, &qast.PrintOpts{Full: true}))
+		case "compact":
+			d.In = core.BStr(compactText(qast.Tokens(s, nil)))
 		case "extra":
 			// keep the redundant pair on the node with the same preorder index if it still exists
 			idx, _ := strconv.Atoi(string(c.Aux))
